@@ -33,7 +33,9 @@ type SeqProfile struct {
 	PDelAll   float64 // a body step narrows the selection with a filter and deletes all of it (txn.DeleteAll)
 	PDropCol  float64 // a schema step may drop a data column (and later create it again)
 	Wide      bool    // row accesses write most of the columns, not a few
+	PBulkDel  float64 // a step deletes a run of value-less prologue rows in block 0 (Count drops below the highest offset's block)
 	SortFirst bool    // create the sorted indexes before any data
+	SortAt    int     // (when not SortFirst) the step at which the sorted indexes are created over the data that exists by then
 	IdxFirst  bool    // create the bitmap indexes and triggers before any data, in the order listed
 	PIdxStep  float64 // probability that a schema step is an index create / drop (else the kind is drawn uniformly)
 	PDelete   float64
@@ -42,16 +44,17 @@ type SeqProfile struct {
 }
 
 type seqGen struct {
-	p       SeqProfile
-	rnd     *rand.Rand
-	w       *World
-	P, R    *Coll
-	R2      *Coll // a replica of the replica (fed from R's own stream), or nil
-	live    []uint32
-	dumpN   int
-	final   bool
-	affine  map[string]int // (col,row) -> affine merges since the last put (keeps numbers small)
-	dropped []ColDesc      // data columns dropped so far and not created again
+	p        SeqProfile
+	rnd      *rand.Rand
+	w        *World
+	P, R     *Coll
+	R2       *Coll // a replica of the replica (fed from R's own stream), or nil
+	live     []uint32
+	dumpN    int
+	final    bool
+	affine   map[string]int // (col,row) -> affine merges since the last put (keeps numbers small)
+	dropped  []ColDesc      // data columns dropped so far and not created again
+	bulkNext int            // next value-less prologue row (relative to 200) that a mid-history bulk delete takes
 }
 
 func (g *seqGen) value(d ColDesc, k string) any {
@@ -436,6 +439,35 @@ func RunSeq(seed int64, p SeqProfile) (out []Ev) {
 		if g.rnd.Float64() < p.PSnap && cycles < 3 {
 			cycles++
 			g.snapCycle(cycles)
+			continue
+		}
+		if !p.SortFirst && p.SortAt > 0 && step == p.SortAt {
+			for _, x := range p.Sorts {
+				if _, ok := g.P.Desc(x[1]); !ok {
+					continue
+				}
+				have := false
+				for _, y := range g.P.Sorts {
+					have = have || y[0] == x[0]
+				}
+				if !have {
+					g.P.CreateSort(x[0], x[1])
+					if g.R != nil {
+						g.R.CreateSort(x[0], x[1])
+					}
+					if g.R2 != nil {
+						g.R2.CreateSort(x[0], x[1])
+					}
+				}
+			}
+			g.dump()
+		}
+		if g.p.Prologue != "" && g.bulkNext < 560 && g.rnd.Float64() < p.PBulkDel {
+			// (all prologues fill 200..900 with value-less rows)
+			n := 20 + g.rnd.Intn(40)
+			g.P.BulkDelete(uint32(200+g.bulkNext), uint32(200+g.bulkNext+n-1))
+			g.bulkNext += n
+			g.dump()
 			continue
 		}
 		if g.rnd.Float64() < p.PSchema {
